@@ -61,7 +61,8 @@ def parse_trace(path, d):
         if name == "openat":
             pm = re.search(r'"([^"]+)"', body)
             if pm and "O_CREAT" in body:
-                ev.append("create " + base(pm.group(1)))
+                # the model's `create` is open(O_CREAT|O_TRUNC): leftovers of an interrupted Save must not survive in the new value
+                ev.append(("create " if "O_TRUNC" in body else "create-without-truncate ") + base(pm.group(1)))
         elif name == "write":
             pm = re.search(r"write\(\d+<([^>]+)>.*, (\d+)(\)| <unfinished)", body)
             if pm and pm.group(1).startswith(d):
@@ -81,8 +82,9 @@ def parse_trace(path, d):
     return ev, {"before": before, "raw": raw}, k, killed
 
 
-def one_case(ctx, idx, old, new, nbuf, kill_at=None, fsize=None, delete=False, errinj=None):
-    """Runs one scenario in its own directory. Returns dict with trace events, post-state dump."""
+def one_case(ctx, idx, old, new, nbuf, kill_at=None, fsize=None, delete=False, errinj=None, leftover=None):
+    """Runs one scenario in its own directory. Returns dict with trace events, post-state dump.
+    leftover=(syscall, when): first a Save of a 4096-byte value in 3 buffers is killed there (history of an interrupted Save)."""
     d = os.path.join(ctx.work, "fs%d" % idx)
     shutil.rmtree(d, ignore_errors=True)
     os.makedirs(d)
@@ -91,6 +93,9 @@ def one_case(ctx, idx, old, new, nbuf, kill_at=None, fsize=None, delete=False, e
     helper(ctx, "save", d, other, 9, 33, 1)
     if old is not None:
         helper(ctx, "save", d, key, 1, old, 1)
+    if leftover is not None:
+        helper(ctx, "save", d, key, 3, 4096, 3,
+               prefix=["strace", "-f", "-o", "/dev/null", "-e", "trace=" + SET, "-e", "inject=%s:signal=SIGKILL:when=%d" % leftover])
     trace = d + ".trace"
     pre = ["strace", "-f", "-y", "-e", "trace=" + SET, "-o", trace]
     if kill_at is not None:
@@ -214,15 +219,13 @@ def run(ctx):
                 if meta[0] != "del" and ren and (not fs or fs[0] > ren[0] or (wr and max(wr) > ren[0])):
                     v.violation("C19:visible-before-flushed", "the value becomes visible under its key before it was written and flushed: %s" % ev,
                                 {"scenario": meta, "events": ev, "model": model})
-                elif meta[0] != "del" and not any(e.startswith("create ") and e.endswith(".spool") for e in ev):
+                elif meta[0] != "del" and not any(e.startswith(("create ", "create-without-truncate ")) and e.endswith(".spool") for e in ev):
                     v.violation("C19:in-place", "Save writes without a spool file: %s" % ev, {"scenario": meta, "events": ev, "model": model})
                 else:
                     v.broken_tie("system calls of FileSystem differ from the model program: observed `%s` model `%s`" % (d[1], d[2]),
                                  {"scenario": meta, "events": ev, "model": model})
             if len(samples) < 2:
                 samples.append({"scenario": list(meta), "syscalls": res["events"][:8]})
-    # (ii) kill at every call of the window (entry of call j = after call j-1), first writes and overwrites
-    kill_plan = []
     def positions(cal):
         """(syscall name, when) for the entry of every call of the window, in order"""
         seen = dict(cal["before"])
@@ -231,6 +234,22 @@ def run(ctx):
             seen[name] = seen.get(name, 0) + 1
             out.append((name, seen[name]))
         return out
+    # (i') histories: a Save interrupted inside its writes, or right before the rename, then a complete Save of a shorter value
+    stats["histories"] = 0
+    cal3 = calib.get((30, 4096, 3)) or calib.get((None, 4096, 3))
+    if cal3:
+        pos = positions(cal3[0])
+        cuts = [p_ for p_ in pos if p_[0] == "write"][1:3] + [p_ for p_ in pos if p_[0].startswith("rename")][:1]
+        for cut in cuts:
+            for new in (12, 40):
+                res = one_case(ctx, nxt(), 30, new, 1, leftover=cut)
+                stats["histories"] += 1
+                distinct.add(("history", cut, new))
+                for sig, what in judge(ctx, res, 30, new, False, sigs):
+                    v.violation("C19:" + sig, "%s (history: a Save of 4096 bytes killed at %s %d, then this Save of %d bytes)" % (what, cut[0], cut[1], new),
+                                {"scenario": ["history", list(cut), new], "events": res["events"], "dump": res["dump"]})
+    # (ii) kill at every call of the window (entry of call j = after call j-1), first writes and overwrites
+    kill_plan = []
     for meta, (cal, n) in calib.items():
         old, new, nbuf = meta
         if new > 5000 and ctx.quick():
